@@ -261,6 +261,9 @@ func (s *vScenario) exec(st vStep) (res, msg string, fatal error) {
 		return "ok", "", s.sync()
 	case "EndSettle":
 		return "ok", "", nil
+	case "Sleep": // wall-clock time passes (K milliseconds); nothing else happens
+		time.Sleep(time.Duration(st.K) * time.Millisecond)
+		return "ok", "", nil
 	}
 	return "", "", fmt.Errorf("unknown step %q", st.A)
 }
@@ -483,6 +486,15 @@ func TestVerifManager(t *testing.T) {
 			ok = emit(ev, res, msg, t0)
 			if res == "panic" || res == "hang" {
 				break
+			}
+		}
+		// C09: with the deterministic settle policy the schedule must come to rest; a schedule whose job steps never end
+		// is cut after the step budget and says so
+		if ok && !abandoned && sc.Settle && !free {
+			if a := s.nextSettleStep(); a == "" {
+				emit0(vStep{A: "EndSettle", Convs: []string{}}, "ok", "", time.Now(), func(r *vRow) { r.Last = true })
+			} else {
+				emit0(vStep{A: "SettleExhausted", Convs: []string{}}, "ok", "next would be "+a, time.Now(), nil)
 			}
 		}
 		if !abandoned {
